@@ -176,6 +176,7 @@ Section Pushes.
     - unfold timer_new in H. cbn [fst snd] in H. inversion H; subst. destruct (e_mode e <? 0); blcount.
     - inversion H; subst. cbn. lia.
     - inversion H; subst. cbn. lia.
+    - match type of H with (if ?b then _ else _) = _ => destruct b end; inversion H; subst; cbn; lia.
     - destruct ((c_state (get_conn st k0) =? c_connectionClosed) || negb room); inversion H; subst; cbn; lia.
     - destruct (c_state (get_conn st k0) =? c_connectionActive); inversion H; subst; cbn; lia.
     - destruct (frameTypeFor (f_mt f)); [|inversion H; subst; cbn; lia].
@@ -236,7 +237,8 @@ Section Pushes.
       unfold timer_new in H. cbn [fst snd] in H. inversion H; subst. destruct Hj as [<-|[]]. cbn in Hb. exact Hb.
     - unfold timer_new in H. cbn [fst snd] in H. inversion H; subst; clear H. in_cases Hj; discriminate.
     - inversion H; subst. contradiction.
-    - inversion H; subst. contradiction.
+    - inversion H; subst. destruct Hj as [<-|[]]; first [discriminate | reflexivity].
+    - match type of H with (if ?b then _ else _) = _ => destruct b end; inversion H; subst; contradiction.
     - destruct ((c_state (get_conn st k0) =? c_connectionClosed) || negb room); inversion H; subst; contradiction.
     - destruct (c_state (get_conn st k0) =? c_connectionActive); inversion H; subst; contradiction.
     - destruct (frameTypeFor (f_mt f)); [|inversion H; subst; contradiction].
@@ -343,7 +345,8 @@ Section Grammar.
     - unfold timer_new in H. cbn [fst snd] in H. inversion H; subst; clear H. in_cases Hj; try discriminate.
       cbn in Hp. destruct (_ && _); discriminate.
     - inversion H; subst. contradiction.
-    - inversion H; subst. contradiction.
+    - inversion H; subst. destruct Hj as [<-|[]]; first [discriminate | reflexivity].
+    - match type of H with (if ?b then _ else _) = _ => destruct b end; inversion H; subst; contradiction.
     - destruct ((c_state (get_conn st k0) =? c_connectionClosed) || negb room); inversion H; subst; contradiction.
     - destruct (c_state (get_conn st k0) =? c_connectionActive); inversion H; subst; contradiction.
     - destruct (frameTypeFor (f_mt f)); [|inversion H; subst; contradiction].
@@ -416,10 +419,9 @@ Proof.
   - left. apply Hself. destruct (zlookup tm (timers st)) as [x|]; [|discriminate].
     destruct (tm_armed x && match lookup tid_eqb (TT tm) (threads st) with None => true | Some _ => false end); [|discriminate].
     inversion H. subst. exact Hin.
-  - left. apply Hself. destruct (mem_key t0 (gcs st)); [|discriminate]. inversion H. subst.
-    destruct (items_delete (set_gcs st (remove_one t0 (gcs st))) t0) as [st' g] eqn:E. cbn [fst] in Hin.
-    apply items_delete_spec in E. cbn [set_gcs items] in E. destruct E as (_&_&_&_&_&_&_&D).
-    destruct (klookup t0 (items st)); destruct D as [_ Hi]; rewrite Hi in Hin; [|exact Hin].
+  - left. apply Hself. destruct (mem_key t0 (gcs st)) eqn:Emem; [|discriminate]. inversion H. subst.
+    destruct (items_delete_tomb_items (set_gcs st (remove_one t0 (gcs st))) t0) as [Hi|Hi]; rewrite Hi in Hin;
+      cbn [set_gcs items] in Hin; [exact Hin|].
     apply (in_remove key_eqb key_eqb_ok) in Hin. tauto.
   - left. apply Hself. destruct (c_state (get_conn st k) =? c_connectionActive); [|discriminate]. inversion H. subst. exact Hin.
   - left. apply Hself. inversion H. subst. exact Hin.
@@ -452,6 +454,7 @@ Proof.
     destruct (tm_armed x && match lookup tid_eqb (TT tm) (threads st) with None => true | Some _ => false end); [|discriminate].
     inversion H. subst. exact Hl.
   - left. destruct (mem_key t0 (gcs st)) eqn:Emem; [|discriminate]. inversion H. subst.
+    gc_delete HI.
     destruct (items_delete (set_gcs st (remove_one t0 (gcs st))) t0) as [st' g] eqn:E. cbn [fst].
     apply items_delete_spec in E. cbn [set_gcs items] in E. destruct E as (_&_&_&_&_&_&_&D).
     assert (Hne : t <> t0).
@@ -477,9 +480,8 @@ Proof.
   - destruct (zlookup tm (timers st)) as [x|]; [|discriminate].
     destruct (tm_armed x && match lookup tid_eqb (TT tm) (threads st) with None => true | Some _ => false end); [|discriminate].
     inversion H. subst. cbn. lia.
-  - destruct (mem_key t0 (gcs st)); [|discriminate]. inversion H. subst.
-    destruct (items_delete (set_gcs st (remove_one t0 (gcs st))) t0) as [st' g] eqn:E. cbn [fst].
-    apply items_delete_spec in E. cbn [set_gcs conns] in E. destruct E as (A&_). rewrite A. lia.
+  - destruct (mem_key t0 (gcs st)) eqn:Emem; [|discriminate]. inversion H. subst.
+    destruct (items_delete_tomb_spec (set_gcs st (remove_one t0 (gcs st))) t0) as (A&_). rewrite A. cbn [set_gcs conns]. lia.
   - destruct (c_state (get_conn st k) =? c_connectionActive); [|discriminate]. inversion H. subst.
     rewrite nextid_put_same by reflexivity. lia.
   - inversion H. subst. rewrite nextid_put_same by reflexivity. lia.
@@ -527,10 +529,9 @@ Proof.
     inversion H. subst. clear H. apply set_thread_in in Hin. destruct Hin as [[-> ->]|[_ Hin]].
     + right. right. right. destruct Hj as [<-|[]]. exists tm. repeat split.
     + left. apply Hold; [exact Hin|intros; discriminate].
-  - destruct (mem_key t0 (gcs st)); [|discriminate]. inversion H. subst.
-    destruct (items_delete (set_gcs st (remove_one t0 (gcs st))) t0) as [st' g] eqn:E. cbn [fst] in Hin.
-    apply items_delete_spec in E. cbn [set_gcs threads] in E. destruct E as (_&_&A&_). rewrite A in Hin.
-    left. apply Hold; [exact Hin|intros; discriminate].
+  - destruct (mem_key t0 (gcs st)) eqn:Emem; [|discriminate]. inversion H. subst.
+    destruct (items_delete_tomb_spec (set_gcs st (remove_one t0 (gcs st))) t0) as (_&_&A&_). rewrite A in Hin.
+    cbn [set_gcs threads] in Hin. left. apply Hold; [exact Hin|intros; discriminate].
   - destruct (c_state (get_conn st k) =? c_connectionActive); [|discriminate]. inversion H. subst.
     left. apply Hold; [exact Hin|intros; discriminate].
   - inversion H. subst. left. apply Hold; [exact Hin|intros; discriminate].
@@ -564,7 +565,8 @@ Proof.
     inversion H. subst. clear H. exists code0. split; [|exact Hj]. apply in_set_thread_other; [|exact Hin].
     intro Heq. subst. apply andb_true_iff in Eb. destruct Eb as [_ Eb].
     rewrite (in_lookup tid_eqb tid_eqb_ok _ _ _ (inv_threads_nd _ HI) Hin) in Eb. discriminate.
-  - left. destruct (mem_key t0 (gcs st)); [|discriminate]. inversion H. subst.
+  - left. destruct (mem_key t0 (gcs st)) eqn:Emem; [|discriminate]. inversion H. subst.
+    gc_delete HI.
     destruct (items_delete (set_gcs st (remove_one t0 (gcs st))) t0) as [st' g] eqn:E. cbn [fst].
     apply items_delete_spec in E. cbn [set_gcs threads] in E. destruct E as (_&_&A&_). rewrite A. exists code0. split; assumption.
   - left. destruct (c_state (get_conn st k) =? c_connectionActive); [|discriminate]. inversion H. subst. exists code0. split; assumption.
@@ -694,7 +696,7 @@ Proof.
         inversion H0. split; reflexivity. }
     destruct (pre_kind d did i) as [x|] eqn:Epi.
     + (* the reader of d works on the frame *)
-      destruct i as [? ? ?|? ? ? ?|? ? ? ?|? ? ? ? ?|? ? ? ? ?|? ? ? ? ? ?|? ?|?|? ? ?|?|k0 f0|k0 f0 ft own g|r|? ? ?|? ?|? ?|? ?|?|?]; cbn in Epi; try discriminate.
+      destruct i as [? ? ?|? ? ? ?|? ? ? ?|? ? ? ? ?|? ? ? ? ?|? ? ? ? ? ?|? ?|?|?|? ? ?|?|k0 f0|k0 f0 ft own g|r|? ? ?|? ?|? ?|? ?|?|?]; cbn in Epi; try discriminate.
       * (* INcGet *)
         destruct ((k0 =? d) && (f_id f0 =? did)) eqn:Em; [|discriminate]. apply andb_true_iff in Em. destruct Em as [E1 E2].
         apply Z.eqb_eq in E1. apply Z.eqb_eq in E2. subst k0 did.
@@ -834,9 +836,9 @@ Section Frame.
     - left. destruct (zlookup tm (timers st)) as [x|]; [|discriminate].
       destruct (tm_armed x && match lookup tid_eqb (TT tm) (threads st) with None => true | Some _ => false end); [|discriminate].
       inversion H. subst. reflexivity.
-    - left. destruct (mem_key t0 (gcs st)); [|discriminate]. inversion H. subst.
-      destruct (items_delete (set_gcs st (remove_one t0 (gcs st))) t0) as [st' g] eqn:E. cbn [fst].
-      apply items_delete_spec in E. cbn [set_gcs sent] in E. destruct E as (_&_&_&_&A&_). unfold wout. rewrite A. reflexivity.
+    - left. destruct (mem_key t0 (gcs st)) eqn:Emem; [|discriminate]. inversion H. subst.
+      pose proof (items_delete_tomb_spec (set_gcs st (remove_one t0 (gcs st))) t0) as E.
+      cbn [set_gcs sent] in E. destruct E as (_&_&_&_&A&_). unfold wout. rewrite A. reflexivity.
     - left. destruct (c_state (get_conn st k0) =? c_connectionActive); [|discriminate]. inversion H. subst. reflexivity.
     - left. inversion H. subst. reflexivity.
     - left. match type of H with (if ?b then _ else _) = _ => destruct b end; [|discriminate]. inversion H. subst. reflexivity.
@@ -873,9 +875,9 @@ Section Phases.
       destruct (tm_armed x && match lookup tid_eqb (TT tm) (threads st) with None => true | Some _ => false end) eqn:Eb; [|discriminate].
       inversion H. subst. clear H. unfold nb. rewrite tsum_set_thread by apply (inv_threads_nd _ HI). cbn [set_timers threads].
       apply andb_true_iff in Eb. destruct Eb as [_ Eb]. destruct (lookup tid_eqb (TT tm) (threads st)); [discriminate|]. cbn. lia.
-    - destruct (mem_key t0 (gcs st)); [|discriminate]. inversion H. subst.
-      destruct (items_delete (set_gcs st (remove_one t0 (gcs st))) t0) as [st' g] eqn:E. cbn [fst].
-      apply items_delete_spec in E. cbn [set_gcs threads] in E. destruct E as (_&_&A&_). unfold nb. rewrite A. lia.
+    - destruct (mem_key t0 (gcs st)) eqn:Emem; [|discriminate]. inversion H. subst.
+      pose proof (items_delete_tomb_spec (set_gcs st (remove_one t0 (gcs st))) t0) as E.
+      cbn [set_gcs threads] in E. destruct E as (_&_&A&_). unfold nb. rewrite A. lia.
     - destruct (c_state (get_conn st k0) =? c_connectionActive); [|discriminate]. inversion H. subst. unfold nb. cbn [put_conn set_conns threads]. lia.
     - inversion H. subst. unfold nb. cbn [put_conn set_conns threads]. lia.
     - match type of H with (if ?b then _ else _) = _ => destruct b end; [|discriminate]. inversion H. subst. unfold nb. cbn [put_conn set_conns threads]. lia.
@@ -958,9 +960,9 @@ Section Helpers.
     - left. destruct (zlookup tm (timers st)) as [x|]; [|discriminate].
       destruct (tm_armed x && match lookup tid_eqb (TT tm) (threads st) with None => true | Some _ => false end); [|discriminate].
       inversion H. subst. reflexivity.
-    - left. destruct (mem_key t0 (gcs st)); [|discriminate]. inversion H. subst.
-      destruct (items_delete (set_gcs st (remove_one t0 (gcs st))) t0) as [st' g] eqn:E. cbn [fst].
-      apply items_delete_spec in E. cbn [set_gcs seen] in E. destruct E as (_&_&_&_&_&A&_). exact A.
+    - left. destruct (mem_key t0 (gcs st)) eqn:Emem; [|discriminate]. inversion H. subst.
+      pose proof (items_delete_tomb_spec (set_gcs st (remove_one t0 (gcs st))) t0) as E.
+      cbn [set_gcs seen] in E. destruct E as (_&_&_&_&_&A&_). exact A.
     - left. destruct (c_state (get_conn st k0) =? c_connectionActive); [|discriminate]. inversion H. subst. reflexivity.
     - left. inversion H. subst. reflexivity.
     - left. match type of H with (if ?b then _ else _) = _ => destruct b end; [|discriminate]. inversion H. subst. reflexivity.
@@ -984,9 +986,9 @@ Section Helpers.
       inversion H. subst. assert (Hne : th2 <> TT tm).
       { intro. subst. apply andb_true_iff in Eb. destruct Eb as [_ Eb]. rewrite Hl in Eb. discriminate. }
       rewrite tlookup_set_thread_other by exact Hne. exact Hl.
-    - destruct (mem_key t0 (gcs st)); [|discriminate]. inversion H. subst.
-      destruct (items_delete (set_gcs st (remove_one t0 (gcs st))) t0) as [st' g] eqn:E. cbn [fst].
-      apply items_delete_spec in E. cbn [set_gcs threads] in E. destruct E as (_&_&A&_). rewrite A. exact Hl.
+    - destruct (mem_key t0 (gcs st)) eqn:Emem; [|discriminate]. inversion H. subst.
+      pose proof (items_delete_tomb_spec (set_gcs st (remove_one t0 (gcs st))) t0) as E.
+      cbn [set_gcs threads] in E. destruct E as (_&_&A&_). rewrite A. exact Hl.
     - destruct (c_state (get_conn st k0) =? c_connectionActive); [|discriminate]. inversion H. subst. exact Hl.
     - inversion H. subst. exact Hl.
     - match type of H with (if ?b then _ else _) = _ => destruct b end; [|discriminate]. inversion H. subst. exact Hl.
@@ -1501,7 +1503,7 @@ Section Trans.
           rewrite forallb_forall in Hqq. rewrite (Hqq _ Hrest) in Hnq. discriminate. }
         split.
         - intros st1 pushed j0 E Hj0. destruct (shape_head _ _ (HS _ _ Hin2)) as (Hg&_&_).
-          destruct (exec_shape _ _ _ _ _ _ E Hg) as [_ Hnil]. rewrite (Hnil Hnop) in Hj0. contradiction.
+          destruct (exec_shape _ _ _ _ _ _ E Hg) as [_ Hnil]. destruct (Hnil Hnop _ Hj0) as [kk ->]. reflexivity.
         - destruct (step_items_keep _ _ _ _ _ _ HI Hs Hl0 Hlive) as [Hk0|(th3&room3&rest3&i3&Hl3&Elk3&Hi3)]; [exact Hk0|]. exfalso.
           rewrite Hl in Hl3. inversion Hl3. subst th3 room3. rewrite Elk in Elk3. inversion Elk3. subst i3.
           destruct Hi3 as [[s Hi3]|Hi3]; subst i2; discriminate. }
